@@ -21,7 +21,11 @@ inductive Expr where
   | nil
   | strs (es : List Expr)                   -- []string{…}
   | funcs (names : List String)             -- []func(string) bool{…}
-  | call (f : String) (args : List Expr)    -- builtins, regexp methods, handlers
+  | call (f : String) (args : List Expr)    -- builtins of handlers.go and of package strings
+  | handler (f : String) (e : Expr)         -- another handler applied to a string
+  | reMatch (r : String) (e : Expr)         -- R.MatchString(e)
+  | reFind (r : String) (e : Expr)          -- R.FindString(e)
+  | reDelete (r : String) (e : Expr)        -- string(R.ReplaceAll([]byte(e), []byte{}))
   | index (e i : Expr)
   | sliceFrom (e lo : Expr)
   | not (e : Expr)
@@ -236,12 +240,23 @@ def evalE (c : Ctx) : Nat → Env → Expr → Option Val
               (seps.mapM fun (v : Val) => match v with | Val.str x => some x | _ => none).map fun ss =>
                 Val.strs (multiSplit s ss)
             | _ => none
-          else match f.splitOn ":" , vs with
-          | ["re.MatchString", r], [.str s] => (c.regex? r).map fun re => Val.bool (Re.matchBytes re s)
-          | ["re.FindString", r], [.str s] => (c.regex? r).map fun re => Val.str (findString re s)
-          | ["re.DeleteAll", r], [.str s] => (c.regex? r).map fun re => Val.str (deleteAll re s)
-          | _, [.str s] => (callFn c fuel f s).map Val.bool
-          | _, _ => none
+          else none
+    | .handler f e =>
+      match evalE c fuel env e with
+      | some (.str s) => (callFn c fuel f s).map Val.bool
+      | _ => none
+    | .reMatch r e =>
+      match evalE c fuel env e, c.regex? r with
+      | some (.str s), some re => some (.bool (Re.matchBytes re s))
+      | _, _ => none
+    | .reFind r e =>
+      match evalE c fuel env e, c.regex? r with
+      | some (.str s), some re => some (.str (findString re s))
+      | _, _ => none
+    | .reDelete r e =>
+      match evalE c fuel env e, c.regex? r with
+      | some (.str s), some re => some (.str (deleteAll re s))
+      | _, _ => none
 
 def exec (c : Ctx) : Nat → Env → List Stmt → Option (Env × Ctl)
   | 0, _, _ => none
